@@ -90,6 +90,8 @@ package statuschecker
 // way answers "pending" (so nothing is submitted)
 //@ func (c *certStatusChecker) CheckPendingCertificatesStatus
 //@   props C02 C13
+// the poll asks the store for every certificate still undecided (the list of undecided statuses is pinned with the types)
+//@   assert call:GetCertificateHeadersByStatus arg0 == agglayertypes.NonSettledStatuses
 //@   requires c != nil && c.log != nil && c.storage != nil && c.agglayerClient != nil
 //@   requires nOpenCerts >= 0
 //@   modifies region("aggsender/types.CertificateHeader.Status"), region("aggsender/types.CertificateHeader.UpdatedAt"), storedStatus, statusWrites
